@@ -66,7 +66,7 @@ package policysync
 //@   property C31
 //@   option safety off
 //@   requires p != nil && !c31Match
-//@   ghost at call chanclose: check old(ei.currentJoinUID) == leaveReq.JoinMetadata.JoinUID && arg0 == old(ei.output) ; c31Match = true
+//@   ghost at call chanclose: check entry(ei.currentJoinUID) == leaveReq.JoinMetadata.JoinUID && arg0 == entry(ei.output) ; c31Match = true
 //@   ghost at call handleLeave$1: check c31Match ==> (ei.output == nil && ei.currentJoinUID == 0) ; check (ei.currentJoinUID != 0 && ei.currentJoinUID == leaveReq.JoinMetadata.JoinUID) ==> c31Match
 
 //@ -- "sends nothing to a workload after it leaves": the endpoints that later updates are fanned out to are exactly
